@@ -43,7 +43,7 @@ int main(void) {
 	CHECK(same, "stringized spelling: tokens separated by single spaces where the source had white space, \\\\ and \\\" escaped inside string and character literals only");
 #else
 	static char *const names[] = {"x", "y"}; static char *const spell[] = {"a", "b"};
-	ND_ARR(unsigned, mk, 2); ND_ARR(unsigned, np, 2); ND_ARR(unsigned, pn, 4); ND_ARR(unsigned, pf, 4); ND_ARR(unsigned, nt, 2); ND_ARR(unsigned, tk, 4); ND_ARR(unsigned, ts, 4);
+	ND_ARR(unsigned, mk, 2); ND_ARR(unsigned, np, 2); ND_ARR(unsigned, pn, 4); ND_ARR(unsigned, pf, 4); ND_ARR(unsigned, nt, 2); ND_ARR(unsigned, tk, 4); ND_ARR(unsigned, ts, 4); ND_ARR(bool, tsp, 4);
 	static struct macroparam P[2][2]; static struct token T[2][2]; static struct macro M[2];
 	for (int m = 0; m < 2; m++) {
 		ASSUME(mk[m] < 2 && np[m] <= 2 && nt[m] <= 2);
@@ -51,7 +51,7 @@ int main(void) {
 		for (int i = 0; i < 2; i++) {
 			ASSUME(pn[2 * m + i] < 2 && pf[2 * m + i] < 8 && tk[2 * m + i] < 3 && ts[2 * m + i] < 2);
 			P[m][i].name = names[pn[2 * m + i]]; P[m][i].flags = pf[2 * m + i];
-			T[m][i].kind = kinds[tk[2 * m + i] == 2 ? 4 : tk[2 * m + i]]; T[m][i].lit = tk[2 * m + i] == 2 ? 0 : spell[ts[2 * m + i]];
+			T[m][i].kind = kinds[tk[2 * m + i] == 2 ? 4 : tk[2 * m + i]]; T[m][i].lit = tk[2 * m + i] == 2 ? 0 : spell[ts[2 * m + i]]; T[m][i].space = tsp[2 * m + i];
 		}
 	}
 	bool eq = M[0].kind == M[1].kind && M[0].ntoken == M[1].ntoken;
@@ -59,9 +59,9 @@ int main(void) {
 		if (M[0].nparam != M[1].nparam) eq = false;
 		for (unsigned i = 0; i < 2; i++) if (eq && i < M[0].nparam && (pn[i] != pn[2 + i] || pf[i] != pf[2 + i])) eq = false;
 	}
-	for (unsigned i = 0; i < 2; i++) if (eq && i < M[0].ntoken && (tk[i] != tk[2 + i] || (tk[i] != 2 && ts[i] != ts[2 + i]))) eq = false;
+	for (unsigned i = 0; i < 2; i++) if (eq && i < M[0].ntoken && (tk[i] != tk[2 + i] || (tk[i] != 2 && ts[i] != ts[2 + i]) || (i > 0 && tsp[i] != tsp[2 + i]))) eq = false;      /* white space before the first token is not part of the list */
 	WITNESS_POINT();
-	CHECK(macroequal(&M[0], &M[1]) == eq, "two definitions are the same (6.10.3p2) iff kind, parameter spellings/usage, and the replacement list's tokens and spellings agree");
+	CHECK(macroequal(&M[0], &M[1]) == eq, "two definitions are the same (6.10.3p2) iff kind, parameter spellings/usage, the replacement list's tokens, spellings and white-space separation agree");
 #endif
 	return 0;
 }
